@@ -6,7 +6,7 @@ BASE_NOTE = ("Trusted: rustc nightly front end / MIR builder / const evaluator, 
 CLAIMED = {
     "C01": {
         "technique": "static analysis: compiler-evaluated table/limit constants vs exact definitions + MIR dominance/pairing rules",
-        "level": "Every constant the decimal rounding decision depends on (651 Eisel-Lemire rows, power tables, Bellerophon tables, limits, safe windows) is proved equal to / bounded by its mathematical definition in every feature configuration, and the three-tier pipeline's fallbacks are checked as must-pass-through facts on the MIR. This is the part of correct rounding that is visible in the shape of the code; the arithmetic itself is not decided.",
+        "level": "Every constant the decimal rounding decision depends on (651 Eisel-Lemire rows, power tables, Bellerophon tables, limits, safe windows) is proved equal to / bounded by its mathematical definition in every feature configuration, and the three-tier pipeline's fallbacks are checked as must-pass-through facts on the MIR; the exact-tie branch of Eisel-Lemire is entered for the closed round-to-even window; multi-word hi64 helpers never report not-truncated as a literal; the many-digits re-parse skips the zeros the overflow test discounted; the truncated-digits error in Bellerophon is scaled by the normalisation shift. This is the part of correct rounding that is visible in the shape of the code; the arithmetic itself is not decided.",
         "note": BASE_NOTE, "ref": "§4 C01", "oracle": True,
     },
 }
@@ -20,52 +20,52 @@ CLAIMED.update({
               "All 78+619 Dragonbox cached powers, the k-range reachable from every finite exponent (the bound the unchecked table index relies on), modular inverses, magic divisors, the five floor_log* multiplier triples (exact on their callers' ranges), and under `compact` the 87 Grisu cached powers with their exponent formula and search-loop coverage are proved equal to their mathematical definitions. Round-trip / shortest-ness of the interval arithmetic itself is not decided.",
               "§4 C02", True),
     "C03": _c("static analysis: digit tables, digit-count tables, 128-bit division constants, step tables, size constants vs exact definitions; dispatch/width pairing on MIR",
-              "Every DIGIT_TO_BASE{r}_SQUARED table and get_table arm, Lemire's digit-count table (checked at every boundary of every log2 class), the power-of-ten tables and fast_log10 multiplier, every (d, factor, shift) of the 128-bit division (d = radix^u64_step, reciprocal valid for all n < 2^128), min/max step tables, FORMATTED_SIZE constants, jeaiii re-slice constants and signed->unsigned width pairing are decided in every feature configuration. The digit-extraction arithmetic is not decided.",
+              "Every DIGIT_TO_BASE{r}_SQUARED table and get_table arm, Lemire's digit-count table (checked at every boundary of every log2 class), the power-of-ten tables and fast_log10 multiplier, every (d, factor, shift) of the 128-bit division (d = radix^u64_step, reciprocal valid for all n < 2^128), min/max step tables, FORMATTED_SIZE constants, jeaiii re-slice constants and multipliers, signed->unsigned width pairing, MASK/SHIFT instantiations of the mantissa/exponent writers, inner 128-bit chunks zero-padded (write_step_digits) and the u128 digit count built from the same chunks are decided in every feature configuration. The digit-extraction arithmetic is not decided.",
               "§4 C03", True),
     "C05": _c("static analysis: per-radix tables/limits vs exact definitions; key agreement between split_radix and the power tables; debug_assert beliefs vs admitted formats",
-              "For every radix 2..36: power tables exact on the index ranges the limits allow, exponent/mantissa/power limits and max_digits within their exact bounds, every base that reaches Bigint::pow factored into (odd, shift) and served by an explicit table row whose value is odd^step, all Bellerophon tables within 1 ulp with exact exponents and covering the f64 range; the same-base belief of the fast path is checked against the formats the entry validation admits.",
+              "For every radix 2..36: power tables exact on the index ranges the limits allow, exponent/mantissa/power limits and max_digits within their exact bounds, every base that reaches Bigint::pow factored into (odd, shift) and served by an explicit table row whose value is odd^step, all Bellerophon tables within 1 ulp with exact exponents and covering the f64 range; the same-base belief of the fast path is checked against the formats the entry validation admits; mixed-base exponent scaling multiplies before it divides; the odd-radix digit comparison answers Equal only when the theoretical digits are exhausted; integral_binary_factor = ceil(log2 radix); Bellerophon error units.",
               "§4 C05", True),
     "C12": _c("static analysis: flag-to-getter pairing and error-under-flag path conditions on MIR",
-              "Each NumberFormat::<F>::NAME reads exactly flags::NAME (or equals STANDARD's bit without `format`), each getter returns its own const, every flag-specific error in parse_number/parse_*sign is constructed only on paths where that flag's getter tested true and is still constructed somewhere, '-' produces a negative only under T::IS_SIGNED, and every syntax flag is read by the parsers it concerns. Grammar equivalence over all strings is not decided.",
+              "Each NumberFormat::<F>::NAME reads exactly flags::NAME (or equals STANDARD's bit without `format`), each getter returns its own const, every flag-specific error in parse_number/parse_*sign is constructed only on paths where that flag's getter tested true and is still constructed somewhere, '-' produces a negative only under T::IS_SIGNED, every syntax flag is read by the parsers it concerns; ExponentWithoutFraction is guarded by the absence of the fraction component itself; a base prefix is looked for only after exactly one leading zero in both parsers. Grammar equivalence over all strings is not decided.",
               "§4 C12"),
     "C18": _c("static analysis: bit-layout algebra on evaluated constants; builder/flag/rebuild pairing; constraint-table and validation-before-use dominance rules on MIR",
-              "The flag part of build->rebuild round-trip is proved (31 distinct single-bit flags, each ORed in from its own field and read back into it; 6 byte fields with matching MASK/SHIFT); format_error_impl has a correctly polarised rejecting branch with the documented error for every documented constraint in both cfg variants; is_valid_radix accepts exactly the feature set's radices; build_strict returns only on Success; every *_with_options back-end call is dominated by is_valid() (and is_valid_options_punctuation for float parsers).",
+              "The flag part of build->rebuild round-trip is proved (31 distinct single-bit flags, each ORed in from its own field and read back into it; 6 byte fields with matching MASK/SHIFT); format_error_impl has a correctly polarised rejecting branch with the documented error for every documented constraint in both cfg variants; is_valid_radix accepts exactly the feature set's radices; build_strict returns only on Success; every *_with_options back-end call is dominated by is_valid() (and is_valid_options_punctuation for float parsers); is_valid_punctuation compares all three pairs of optional control characters.",
               "§4 C18"),
 })
 
 CLAIMED.update({
     "C09": _c("static analysis: unsafe-site inventory with guard dominance on MIR; assertion/re-slice must-pass-through; size constants vs exact bounds",
-              "The memory-safety clause: every unsafe call in the writer crates and `lexical` is classified (guard-dominated, forwarded, named contract, else violation); the radix/table/count assertions and the re-slice dominate every unchecked digit writer; write_float asserts check_buffer and is_valid (in release builds: debug_assert-only tests are not accepted) before any store or back-end; dragonbox_power's argument is the k formula whose range is bounded against the table; FORMATTED_SIZE constants cover the longest numeral; the notation defaults of the writers equal those of buffer_size_const. Sufficiency of the bound for every (value, options) is not decided.",
+              "The memory-safety clause: every unsafe call in the writer crates and `lexical` is classified (guard-dominated, forwarded, named contract, else violation); the radix/table/count assertions and the re-slice dominate every unchecked digit writer; write_float asserts check_buffer and is_valid (in release builds: debug_assert-only tests are not accepted) before any store or back-end; dragonbox_power's argument is the k formula whose range is bounded against the table; FORMATTED_SIZE constants cover the longest numeral; the notation defaults of the writers equal those of buffer_size_const; its exponent allowance covers the integer writer's re-slice window, its digit term honours min_significant_digits on every path; debug-only buffer-length beliefs hold after the sign byte; the generic-radix writers clamp the digits they copy; the u128 digit count mirrors the chunking of the writer. Sufficiency of the bound for every (value, options) is not decided.",
               "§4 C09", True),
     "C10": _c("static analysis: guard dominance with mutation-freedom between guard and use, on MIR of all parse crates; unsafe and panic inventories",
-              "The out-of-bounds clause: all step_unchecked / step_by_unchecked(N) / peek_many_unchecked::<V> / set_cursor sites and all StackVec/ReverseView primitives are shown to be dominated by a guard on the same object giving the needed capacity, with no cursor/length mutation on any path in between; remaining unsafe calls are forwarded inside unsafe fns or named contracts; writers of Bytes.index and StackVec.length are inventoried; explicit panic sites reachable from parse entry points match a reasoned table. Arithmetic-overflow/bounds-check panics and termination are not decided.",
+              "The out-of-bounds clause: all step_unchecked / step_by_unchecked(N) / peek_many_unchecked::<V> / set_cursor sites and all StackVec/ReverseView primitives are shown to be dominated by a guard on the same object giving the needed capacity, with no cursor/length mutation on any path in between; remaining unsafe calls are forwarded inside unsafe fns or named contracts; writers of Bytes.index and StackVec.length are inventoried; explicit panic sites reachable from parse entry points match a reasoned table; every peek dispatch has all 16 arms (its unreachable!() arm); integral_binary_factor leaves enough spare bits for large_quorem's assertion. Arithmetic-overflow/bounds-check panics and termination are not decided.",
               "§4 C10"),
     "C11": _c("static analysis: normalised instruction multisets of sibling bodies under a declared substitution; macro back-traces",
-              "parse_complete/parse_partial and fast_path_complete/fast_path_partial are equal up to the complete->partial callee substitution and pairing results with a count; complete = partial + `count == length`; IS_PARTIAL only selects between errors; the integer algorithms differ only inside the handler macros of the shared algorithm! expansion. The relation over all inputs is not decided.",
+              "parse_complete/parse_partial and fast_path_complete/fast_path_partial are equal up to the complete->partial callee substitution and pairing results with a count; complete = partial + `count == length`; IS_PARTIAL only selects between errors; the integer algorithms differ only inside the handler macros of the shared algorithm! expansion, and every Ok exit of both passes the required-digits test; the separator predicates treat the end of the buffer like a neutral byte and use run-skipping look-around exactly in the consecutive variants (what a prefix re-parse depends on). The relation over all inputs is not decided.",
               "§4 C11"),
     "C13": _c("static analysis: peek dispatch decoded against macro back-traces; per-component field/mask/radix pairing; counting-protocol rules on MIR",
-              "All 16 arms of each component iterator's peek dispatch are decoded with that component's flag bits and matched to the peek_<x>/is_<x>/peek_1|peek_n macros they expand; each iterator counts into its own field, masks with its own mask, classifies digits with the radix the parser uses for that component; Number's digit slices are re-iterated with the same component's iterator; digit-consuming steps are followed by increment_count and counting is gated on buffer-level contiguity. Value preservation over all inputs is not decided.",
+              "All 16 arms of each component iterator's peek dispatch are decoded with that component's flag bits and matched to the peek_<x>/is_<x>/peek_1|peek_n macros they expand; each iterator counts into its own field, masks with its own mask, classifies digits with the radix the parser uses for that component; Number's digit slices are re-iterated with the same component's iterator; digit-consuming steps are followed by increment_count and counting is gated on buffer-level contiguity; all 178 look-arounds of the separator predicates classify the end of the buffer like a neutral byte; consecutive variants look past the whole run and plain variants one byte; skip_zeros returns a digit count. Value preservation over all inputs is not decided.",
               "§4 C13"),
     "C15": _c("static analysis: must-pass-through / who-may-produce rules and validator constraint tables on MIR",
-              "Special parsing only on the Err edge of the numeric parse; NAN/INFINITY constants produced only in parse_positive_special, each from its own option string, under the no_special test, sign applied afterwards; the writer's '-' store is control-dependent on needs_negative_sign() = is_sign_negative & !is_nan; a disabled special diverges without a store; both float option builders impose the same constraints on special strings.",
+              "Special parsing only on the Err edge of the numeric parse; NAN/INFINITY constants produced only in parse_positive_special, each from its own option string, under the no_special test, sign applied afterwards; the writer's '-' store is control-dependent on needs_negative_sign() = is_sign_negative & !is_nan; a disabled special diverges without a store; both float option builders impose the same constraints on special strings; is_nan / is_inf partition is_special on all mantissa bits.",
               "§4 C15"),
     "C17": _c("static analysis: delegation shape, origin (taint) analysis of stored bytes, validator constraint tables on MIR",
-              "lexical::parse* and all lexical_core wrappers/impls are single forwarding calls (equality for the parse side); to_string* write once into a buffer of the documented size and truncate to exactly the returned length; every byte store in the writer crates has an ASCII origin; option builders reject non-ASCII punctuation and non-letter specials on every Ok path.",
+              "lexical::parse* and all lexical_core wrappers/impls are single forwarding calls (equality for the parse side); to_string* write once into a buffer of the documented size and truncate to exactly the returned length; every byte store in the writer crates has an ASCII origin; option builders reject non-ASCII punctuation and non-letter specials on every Ok path; the buffer bound to_string_with_options relies on honours min_significant_digits and the exponent writer's window.",
               "§4 C17"),
     "C19": _c("static analysis: who-may-read and must-pass-through rules for the lossy flag on MIR",
-              "Options::lossy() is read only in parse_complete/parse_partial, after the grammar has produced its result and after the exact fast path returned, with no error construction or grammar/iterator call afterwards, and flows only into moderate_path: accept/reject, counts, errors and fast-path results cannot depend on it. The one-ULP bound is not decided.",
+              "Options::lossy() is read only in parse_complete/parse_partial, after the grammar has produced its result and after the exact fast path returned, with no error construction or grammar/iterator call afterwards, and flows only into moderate_path: accept/reject, counts, errors and fast-path results cannot depend on it; every result returnable under lossy is a literal zero/infinity or has passed shared::round; the many-digits re-parse skips the discounted zeros. The one-ULP bound is not decided.",
               "§4 C19"),
 })
 
 CLAIMED.update({
     "C04": _c("static analysis: overflow_digits shape + exact bound for 12 types x 35 radices; SWAR lane constants; gating and error-pairing path conditions on MIR",
-              "radix^overflow_digits(radix) - 1 <= T::MAX for every integer type and radix (so the unchecked prefix cannot wrap); the SWAR validity constants are the per-lane bounds 0x30 <= b < 0x30+radix; every multi-digit fast path is gated on contiguity and radix <= 10; Overflow/Underflow are produced only from the matching failed checked operation on the matching sign branch; '-' yields a negative only under T::IS_SIGNED; iterator steps are guard-dominated. Error precedence and value exactness over all strings are not decided.",
+              "radix^overflow_digits(radix) - 1 <= T::MAX for every integer type and radix (so the unchecked prefix cannot wrap); the SWAR validity constants are the per-lane bounds 0x30 <= b < 0x30+radix; every multi-digit fast path is gated on contiguity and radix <= 10; Overflow/Underflow are produced only from the matching failed checked operation on the matching sign branch; '-' yields a negative only under T::IS_SIGNED; iterator steps are guard-dominated; the byte->digit decoders are tabulated over all 256 x 35 (byte, radix) pairs from their MIR paths; Error::Empty is tested after the sign was consumed. Error precedence and value exactness over all strings are not decided.",
               "§4 C04", True),
     "C08": _c("static analysis: writer/parser interface agreement (mixed-base pair sets, MASK/SHIFT instantiations, flag polarity) on MIR",
-              "The float writer's admitted mixed (radix, exponent_base) pairs equal the parser's; every MASK/SHIFT const instantiation is a matching pair of the radix its caller means (mantissa vs exponent); '+' is written only under required_*_sign, scientific notation never under no_exponent_notation and positional never when notation is required; punctuation and special strings come from same-named option getters on both sides. Value equality after the round trip is not decided.",
+              "The float writer's admitted mixed (radix, exponent_base) pairs equal the parser's; every MASK/SHIFT const instantiation is a matching pair of the radix its caller means (mantissa vs exponent); '+' is written only under required_*_sign, scientific notation never under no_exponent_notation and positional never when notation is required; the exponent '+' is written on every non-negative path exactly when required_exponent_sign; mixed-base exponent scaling in the parser multiplies before it divides; punctuation and special strings come from same-named option getters on both sides. Value equality after the round trip is not decided.",
               "§4 C08"),
     "C16": _c("static analysis: cross-configuration comparison of cfg-alternative tables/constants and of the radix-10 dispatch under every feature set",
-              "Every cfg-alternative table, limit, step, divider and constant agrees with the default build on the decimal keys in every analysed feature configuration, and the radix-10 arm of every dispatcher resolves to the same back-end as in the default (resp. compact) build; together with the decimal table rules of C01-C03 running in every configuration. Equality of results is not decided.",
+              "Every cfg-alternative table, limit, step, divider and constant agrees with the default build on the decimal keys in every analysed feature configuration, and the radix-10 arm of every dispatcher resolves to the same back-end as in the default (resp. compact) build; together with the decimal table rules of C01-C03 running in every configuration and the structural rules of the feature-only back-ends (Grisu boundaries and weeding under compact). Equality of results is not decided.",
               "§4 C16", True),
 })
 
@@ -75,7 +75,12 @@ CLAIMED.update({
               "§4 C14"),
 })
 
+CLAIMED.update({
+    "C06": _c("static analysis: decision tables of the digit-alignment helpers read off their MIR paths vs their definitions; operand pairing of every writer; carry / scale rules of the rounding step",
+              "The digit-alignment clauses only: fast_log2, calculate_shl (Euclidean modulus), inverse_remainder, fast_ceildiv, binary::scale_sci_exp (floor division) and hex::scale_sci_exp are tabulated from their feasible MIR paths for every binary exponent in [-1200, 1200] and every bits-per-digit 1..5 and equal their definitions; every power-of-two / hex-float writer calls them with the operands they are defined for and writes the digits of mantissa << shift in the mantissa radix and scale_sci_exp(sci_exp, ..) as the exponent; sci_exp = exponent() + mantissa_bits - 1; with default options the mantissa is not modified; the carry of a rounded mantissa and its scale are handled (F11/F12). That the written digits denote the float is not decided.",
+              "§4 C06", True),
+})
+
 NOT_APPLICABLE = {
-    "C06": "Exactness of power-of-two radix float output is arithmetic on runtime exponents (calculate_shl, scale_sci_exp); no table or guard whose truth implies it beyond the digit tables already covered under C03.",
     "C07": "Generic-radix float output is native floating-point digit generation with carry back-tracking; every clause (valid digits, <2048 ulp, exact integers) is a statement about runtime values.",
 }
